@@ -71,11 +71,12 @@ class Frag:
 
 
 class Obligation:
-    __slots__ = ("rule", "construct", "detail", "ok", "msg", "loc", "trivial", "extra")
+    __slots__ = ("rule", "construct", "detail", "ok", "msg", "loc", "trivial", "extra", "robust")
 
-    def __init__(self, rule, construct, detail, ok, msg, loc, trivial, extra):
+    def __init__(self, rule, construct, detail, ok, msg, loc, trivial, extra, robust=False):
         self.rule, self.construct, self.detail = rule, construct, detail
         self.ok, self.msg, self.loc, self.trivial, self.extra = ok, msg, loc, trivial, extra
+        self.robust = robust
 
     def key(self):
         return (self.rule, self.construct, self.detail)
@@ -94,6 +95,35 @@ class Obligation:
         return d
 
 
+# Rule families decided by shape-free reasoning (scenario / symbolic walk, path or must analysis over all exits, truth
+# tables over guards, exact algebra on extracted terms, inventories that positively identify a construct).  A failure of
+# one of these stands in any function.  Everything else reads today's statement shapes; its failures are believed only
+# in functions that are unchanged or lightly edited since the confirmed baseline (Report._shape_rule_scope).
+#   property -> list of (rule prefix, detail prefix or None)
+ROBUST = {
+    "C01": [("R01.2", None), ("R01.3", "op:")],
+    "C02": [("R02.1", "term=D f"), ("R02.1", "constructor-literal"), ("R02.5", "container-branch"), ("R02.5", "element-term"), ("R02.5", "vector-identity-by-name"), ("R02.5", "same-vector-guard")],
+    "C03": [("R03.4", None), ("R03.2", None), ("R03.3", None)],
+    "C04": [("R04.1", None), ("R04.2", None), ("R04.3", None), ("R04.4", "conjunction"), ("R04.4", "sentinel"), ("R04.4", "degree-cache-writer"), ("R04.4", "raw-degree-cache-read")],
+    "C05": [("R05.1", None), ("R05.2", None), ("R05.3", None), ("R05.4", None), ("R05.5", "bound-value"), ("R05.5", "columns")],
+    "C06": [("R06.1", None), ("R06.2", None), ("R06.3", None), ("R06.5", None)],
+    "C07": [("R07.1", "value-term"), ("R07.4", "position"), ("R07.4", "return:"), ("R07.2", "sense-edit")],
+    "C08": [("R08.1", "auto"), ("R08.1", "routed-to-lp"), ("R08.1", "variant-forwarded"), ("R08.1", "linprog-method"), ("R08.1", "nlp-stays-nlp"), ("R08.3", None), ("R08.4", None), ("R08.2", "bound-value")],
+    "C09": [("R09.6", None), ("R09.3", "bound"), ("R09.2", "no-late-binding")],
+    "C10": [("R10.1", "operator->sense"), ("R10.1", "keeps-sense"), ("R10.2", None), ("R10.3", None), ("R10.4", None)],
+    "C11": [("R11.2", "size-helper"), ("R11.3", "symmetric-sharing"), ("R11.3", "full-grid"), ("R11.4", None)],
+    "C12": [("R12.1", None), ("R12.3", None)],
+    "C13": [("R13.1", None), ("R13.3", None), ("R13.6", None)],
+    "C14": [("R14", None)],
+    "C15": [("R15.4", None), ("R15.5", None)],
+    "C16": [("R16.2", None), ("R16.3", None), ("R16.4", "store:")],
+    "C17": [("R17.3", "gather"), ("R17.3", "dense"), ("R17.3", "index-is"), ("R17.3", "term")],
+    "C18": [("R18.1", "strict-raises"), ("R18.1", "block-dominates-backend"), ("R18.1", "unconditional"), ("R18.3", None), ("R18.4", None)],
+    "C19": [("R19.1", None), ("R19.2", None), ("R19.3", None)],
+    "C20": [("R20.2", None), ("R20.4", None), ("R20.5", None)],
+}
+
+
 class Report:
     def __init__(self, prop: str, tier: str = "quick", seed: int = 0, quiet: bool = False):
         self.prop = prop
@@ -109,11 +139,49 @@ class Report:
         self.min_instances: dict = {}
         self.pins: dict = {}
         self.undecided_msgs: list = []
+        self.edits: dict | None = None      # qualname -> (changed statements, baseline statements, (rel, first, last))
+        self.robust_default = False
 
     # ---------------------------------------------------------------- recording
-    def ob(self, rule, construct, ok, msg, loc=None, detail="", trivial=False, extra=None):
-        self.obs.append(Obligation(rule, str(construct), str(detail), bool(ok), msg, loc, trivial, extra))
+    def ob(self, rule, construct, ok, msg, loc=None, detail="", trivial=False, extra=None, robust=None):
+        """robust=True: the obligation was decided by a shape-free rule (scenario / symbolic walk, path analysis,
+        algebra); it stands whatever the function looks like.  Otherwise the rule reads today's statement shapes and
+        its FAILURE is only believed in functions that are unchanged or lightly edited since the confirmed baseline
+        (see _shape_rule_scope)."""
+        if robust is None:
+            robust = self.robust_default or any(rule.startswith(r) and (d is None or str(detail).startswith(d)) for r, d in ROBUST.get(self.prop, ()))
+        self.obs.append(Obligation(rule, str(construct), str(detail), bool(ok), msg, loc, trivial, extra, robust))
         return bool(ok)
+
+    RESTRUCTURED_ABS = 12       # more changed statements than this: the function was restructured, not edited
+    RESTRUCTURED_REL = (6, 0.5)
+
+    def _shape_rule_scope(self):
+        """Failures of shape rules located in functions that were restructured since the baseline (or are new) say
+        'the shape I know is gone', not 'the property is violated': they become undecided."""
+        if not self.edits:
+            return
+        spans = {}
+        for q, (chg, tot, span) in self.edits.items():
+            spans.setdefault(span[0], []).append((span[1], span[2], q, chg, tot))
+        for o in self.obs:
+            if o.ok or o.robust or not o.loc or ":" not in o.loc:
+                continue
+            rel, _, ln = o.loc.rpartition(":")
+            if not ln.isdigit():
+                continue
+            ln = int(ln)
+            hit = [(a, b, q, chg, tot) for a, b, q, chg, tot in spans.get(rel, []) if a <= ln <= b]
+            if not hit:
+                continue
+            a, b, q, chg, tot = hit[0]
+            big = chg is None or chg > self.RESTRUCTURED_ABS or (chg > self.RESTRUCTURED_REL[0] and tot and chg / tot > self.RESTRUCTURED_REL[1])
+            if big:
+                what = "is new" if chg is None else f"was restructured ({chg} of {tot} statements changed since the confirmed baseline)"
+                self.undecided(f"{o.rule} {o.construct} [{o.detail}]: shape rule does not match, but {q.split(':')[1]} {what}: not decided ({o.msg[:90]})")
+                o.ok = True
+                o.trivial = True
+                o.msg = "(shape rule in a restructured function: not decided) " + o.msg
 
     def pin(self, group, rule, construct, ok, msg, loc=None, detail="", trivial=False, extra=None):
         """An obligation decided by matching today's statement shapes (a *pinned idiom*).  Pins are grouped (usually
@@ -127,7 +195,7 @@ class Report:
                 return True
             msg = msg + " -- closest statement now: " + "; ".join(l[:80] for _f, _r, l in near if l)
         self.pins.setdefault(group, []).append(len(self.obs))
-        return self.ob(rule, construct, bool(ok), msg, loc, detail, trivial, extra)
+        return self.ob(rule, construct, bool(ok), msg, loc, detail, trivial, extra, robust=False)
 
     def undecided(self, msg: str) -> None:
         """A rule (or part of one) could not be decided.  Never an alarm by itself: if the run finds no violation the
@@ -174,6 +242,7 @@ class Report:
         return data.get("findings", []), data.get("fixed", [])
 
     def finish(self, write: bool = True, raise_undecided: bool = True) -> int:
+        self._shape_rule_scope()
         for rule, n in self.min_instances.items():
             got = self.count(rule)
             if got < n:
